@@ -424,6 +424,26 @@ Proof.
   rewrite count_occ_repeat_eq by reflexivity. reflexivity.
 Qed.
 
+Lemma count_occ_remove_other (l : list nat) i j :
+  i <> j -> count_occ Nat.eq_dec (remove Nat.eq_dec j l) i = count_occ Nat.eq_dec l i.
+Proof.
+  intro NE. induction l as [|x l IH]; simpl; auto.
+  destruct (Nat.eq_dec j x) as [E|E].
+  - subst x. destruct (Nat.eq_dec j i); [congruence | exact IH].
+  - simpl. destruct (Nat.eq_dec x i); rewrite IH; reflexivity.
+Qed.
+
+(** Independence of progress: whatever thread [j] does and wherever it stops — for
+    instance in the middle of an upload whose body never arrives — every other
+    thread's view is the one it has when [j] is never scheduled at all. *)
+Corollary stalled_thread_harmless {R} (sched : list nat) (s : list (thread R) * node) i j :
+  thread_roots_disjoint (fst s) -> i <> j ->
+  view (grun s sched) i = view (grun s (remove Nat.eq_dec j sched)) i.
+Proof.
+  intros RD NE. rewrite !threads_independent by exact RD.
+  rewrite count_occ_remove_other by exact NE. reflexivity.
+Qed.
+
 (** * The workload of the correspondence check *)
 
 Lemma only_proj i (s : list tcall) : only i s = map (fun x => (i, x)) (proj i s).
